@@ -119,8 +119,8 @@ harnesses! {
     #[kani::stub(std::alloc::realloc, crate::rt::k_realloc)]
     fn c09_sfo_a(nd) {
         let mut r = SincFixedOut::<f64>::new_with_interpolator(1.0, 2.0, SincInterpolationType::Linear,
-            probe::boxed64(2, 2), 2, 2).unwrap();
-        rt_section!(A, nd, r, f64, 8, 2);
+            probe::boxed64(2, 2), 3, 2).unwrap();
+        rt_section!(A, nd, r, f64, 10, 3);
         forget(r);
     }
 
@@ -143,8 +143,8 @@ harnesses! {
     #[kani::stub(std::alloc::realloc, crate::rt::k_realloc)]
     fn c09_sfi_a(nd) {
         let mut r = SincFixedIn::<f32>::new_with_interpolator(1.0, 2.0, SincInterpolationType::Cubic,
-            probe::boxed32(2, 2), 2, 2).unwrap();
-        rt_section!(A, nd, r, f32, 2, 14);
+            probe::boxed32(2, 2), 3, 2).unwrap();
+        rt_section!(A, nd, r, f32, 3, 16);
         forget(r);
     }
 
